@@ -237,3 +237,168 @@ func vDeepLastKind(root *vNode, defs vDefs) int {
 	}
 	return o.props[len(o.props)-1].node.kind
 }
+
+func init() {
+	vRegister("VerifC13ArrayParam", VerifC13ArrayParam)
+	vRegister("VerifC13Presence", VerifC13Presence)
+}
+
+type vArrDef struct {
+	hasMaxI, hasMinI bool
+	maxI, minI       int64
+	cf               string // "", csv, pipes
+	itemInt          bool   // items are integers (with maximum) or strings (with maxLength)
+	hasItemMax       bool
+	itemMax          float64
+	hasItemMaxL      bool
+	itemMaxL         int64
+}
+
+func vMakeArrDef(tag string) vArrDef {
+	d := vArrDef{}
+	d.hasMaxI, d.hasMinI = vBool(tag+".hasMaxItems"), vBool(tag+".hasMinItems")
+	d.maxI, d.minI = vI64(tag+".maxItems"), vI64(tag+".minItems")
+	vAssume(vAnd(d.maxI >= 0, d.minI >= 0))
+	d.cf = []string{"", "csv", "pipes"}[vChoice(tag+".collectionFormat", 3)]
+	d.itemInt = vBool2(tag + ".itemsAreIntegers")
+	if d.itemInt {
+		d.hasItemMax, d.itemMax = vBool(tag+".items.hasMax"), vF64(tag+".items.max")
+	} else {
+		d.hasItemMaxL, d.itemMaxL = vBool(tag+".items.hasMaxLen"), vI64(tag+".items.maxLen")
+		vAssume(d.itemMaxL >= 0)
+	}
+	return d
+}
+
+func (d vArrDef) param() spec.Parameter {
+	p := spec.Parameter{}
+	p.Name, p.In, p.Type = "p", "query", "array"
+	p.CollectionFormat = d.cf
+	mx, mn := d.maxI, d.minI
+	p.MaxItems = vMaybeNil(!d.hasMaxI, &mx)
+	p.MinItems = vMaybeNil(!d.hasMinI, &mn)
+	it := &spec.Items{}
+	if d.itemInt {
+		it.Type = "integer"
+		v := d.itemMax
+		it.Maximum = vMaybeNil(!d.hasItemMax, &v)
+	} else {
+		it.Type = "string"
+		v := d.itemMaxL
+		it.MaxLength = vMaybeNil(!d.hasItemMaxL, &v)
+	}
+	p.Items = it
+	return p
+}
+
+// witness: the raw value splits into n items under the OLD collectionFormat; every item is the same value
+func (d vArrDef) accepts(oldCF string, n int64, itemIsInt bool, itemNum float64, itemLen int64) bool {
+	eff := func(s string) string {
+		if s == "" {
+			return "csv"
+		}
+		return s
+	}
+	if eff(d.cf) != eff(oldCF) {
+		return false // some raw value splits differently: treated as rejected
+	}
+	ok := vAnd(vOr(!d.hasMaxI, n <= d.maxI), vOr(!d.hasMinI, n >= d.minI))
+	var item bool
+	if d.itemInt {
+		item = vAnd(itemIsInt, vOr(!d.hasItemMax, itemNum <= d.itemMax))
+	} else {
+		item = vOr(!d.hasItemMaxL, itemLen <= d.itemMaxL)
+	}
+	return vAnd(ok, vOr(n == 0, item))
+}
+
+// C13, array query parameter: item counts, collectionFormat, item type and item constraints
+func VerifC13ArrayParam() {
+	old, new := vMakeArrDef("old"), vMakeArrDef("new")
+	n := vI64("w.count")
+	vAssume(n >= 0)
+	itemIsInt := vBool("w.itemIsInteger")
+	itemNum := vF64("w.itemValue")
+	vAssume(vIsIntegral(itemNum))
+	itemLen := vI64("w.itemLength")
+	vAssume(itemLen >= 1)
+	vAssume(old.accepts(old.cf, n, itemIsInt, itemNum, itemLen))
+	vAssume(vNot(new.accepts(old.cf, n, itemIsInt, itemNum, itemLen)))
+	vCover("witness-exists")
+	vObserve("cf", old.cf+">"+new.cf)
+	vObserve("itemsInt", old.itemInt)
+	vObserve("countsDiffer", vOr(vOr(old.hasMaxI != new.hasMaxI, old.hasMinI != new.hasMinI), vOr(old.maxI != new.maxI, old.minI != new.minI)))
+	if vKnown("C13-D19", vAnd(old.itemInt && !new.itemInt, new.hasItemMaxL)) {
+		return
+	}
+	diffs, _ := Compare(vSpecWithParams(old.param()), vSpecWithParams(new.param()))
+	vObserve("ndiffs", len(diffs))
+	vAssert(vBreaking(diffs), "array value accepted by the old parameter and rejected by the new one, but no Breaking change reported")
+}
+
+// C13, presence edits: endpoints, methods, parameters added/required/moved, consumed media types
+func VerifC13Presence() {
+	edit := vChoice("edit", 8)
+	mkOp := func(params ...spec.Parameter) *spec.Operation {
+		op := &spec.Operation{}
+		op.Parameters = params
+		op.Responses = &spec.Responses{}
+		op.Responses.StatusCodeResponses = map[int]spec.Response{200: {ResponseProps: spec.ResponseProps{Description: "ok"}}}
+		return op
+	}
+	q := func(name string, required bool) spec.Parameter {
+		return vQueryParam(name, "string", "", required, spec.CommonValidations{})
+	}
+	baseReq := vBool2("otherParamRequired")
+	s1 := vSpecWithOp("/a", mkOp(q("p", baseReq)))
+	s2 := vSpecWithOp("/a", mkOp(q("p", baseReq)))
+	s1.Consumes = []string{"application/json", "application/xml"}
+	s2.Consumes = []string{"application/json", "application/xml"}
+	add := func(sw *spec.Swagger, path, method string, op *spec.Operation) {
+		pi := sw.Paths.Paths[path]
+		if method == "post" {
+			pi.Post = op
+		} else {
+			pi.Get = op
+		}
+		sw.Paths.Paths[path] = pi
+	}
+	switch edit {
+	case 0: // an endpoint is removed
+		add(s1, "/b", "get", mkOp())
+	case 1: // a method of an endpoint is removed
+		add(s1, "/a", "post", mkOp())
+	case 2: // a required parameter is added
+		s2 = vSpecWithOp("/a", mkOp(q("p", baseReq), q("n", true)))
+		s2.Consumes = s1.Consumes
+	case 3: // an optional parameter becomes required
+		s1 = vSpecWithOp("/a", mkOp(q("p", baseReq), q("n", false)))
+		s2 = vSpecWithOp("/a", mkOp(q("p", baseReq), q("n", true)))
+		s1.Consumes, s2.Consumes = []string{"application/json"}, []string{"application/json"}
+	case 4: // a required parameter moves from query to header
+		h := q("n", true)
+		h.In = "header"
+		s1 = vSpecWithOp("/a", mkOp(q("p", baseReq), q("n", true)))
+		s2 = vSpecWithOp("/a", mkOp(q("p", baseReq), h))
+		s1.Consumes, s2.Consumes = []string{"application/json"}, []string{"application/json"}
+	case 5: // a consumed media type is removed (spec level)
+		s2.Consumes = []string{"application/json"}
+	case 6: // a consumed media type is removed (operation level)
+		o1, o2 := mkOp(q("p", baseReq)), mkOp(q("p", baseReq))
+		o1.Consumes = []string{"application/json", "application/xml"}
+		o2.Consumes = []string{"application/json"}
+		s1, s2 = vSpecWithOp("/a", o1), vSpecWithOp("/a", o2)
+		if vKnown("C13-D7", true) {
+			return
+		}
+	default: // a path-level required parameter is added
+		pi := s2.Paths.Paths["/a"]
+		pi.Parameters = []spec.Parameter{q("n", true)}
+		s2.Paths.Paths["/a"] = pi
+	}
+	vCover("edited")
+	vObserve("edit", edit)
+	diffs, _ := Compare(s1, s2)
+	vObserve("ndiffs", len(diffs))
+	vAssert(vBreaking(diffs), "an edit the documentation lists as breaking for requests produced no Breaking change")
+}
